@@ -144,31 +144,32 @@ class Sandbox:
         # And get them back the module
         return imported_module
 
-    def _execute_with_timeout(self, code, filename, kind, **meta):
+    def _run_in_thread(self, compiled_code, filename, code):
         """
-        Execute the given code, but stop after `self.allowed_time`.
-        Args:
-            code (str):
-            filename (str):
-            kind (:py:class:`pedal.sandbox.sandbox_mixins.SandboxContextKind`):
+        Execute the compiled student code in a helper thread, but stop after
+        `self.allowed_time`. Only the student's code runs in that thread: all
+        of the sandbox's own bookkeeping (mocking, captured output, recording
+        the exception) stays in the calling thread, so a thread that had to be
+        abandoned can never race with the caller over the sandbox's state.
 
-        Returns:
-            :py:class:`pedal.sandbox.sandbox.Sandbox`
+        Raises:
+            TimeoutError: If the code did not finish in time.
+            BaseException: Whatever the student's code raised.
         """
-        try:
-            return timeout(self.allowed_time, self._execute,
-                           code, filename, kind, False, **meta)
-        except TimeoutError as timeout_exception:
-            self._stop_patches()
-            self._capture_exception(timeout_exception, sys.exc_info(),
-                                    code, filename)
-            return self
+        outcome = []
+
+        def run_student_code():
+            try:
+                with self.trace.as_filename(filename, code):
+                    exec(compiled_code, self.data)
+            except BaseException as student_exception:
+                outcome.append(student_exception)
+
+        timeout(self.allowed_time, run_student_code)
+        if outcome:
+            raise outcome[0]
 
     def _execute(self, code, filename, kind, threaded, **meta):
-        # Handle any threading if necessary
-        if threaded:
-            return self._execute_with_timeout(code, filename, kind, **meta)
-
         self.clear_exception()
 
         context = SandboxContext(self._next_context_id, code, filename, kind,
@@ -183,8 +184,12 @@ class Sandbox:
         try:
             # TODO: Support CaitNode and Ast (needs skulpt to support compile better)
             compiled_code = compile(code, filename, 'exec')
-            with self.trace.as_filename(filename, code):
-                exec(compiled_code, self.data)
+            # Handle any threading if necessary
+            if threaded:
+                self._run_in_thread(compiled_code, filename, code)
+            else:
+                with self.trace.as_filename(filename, code):
+                    exec(compiled_code, self.data)
         except Exception as user_exception:
             self._stop_mocking(context)
             self._capture_exception(user_exception, sys.exc_info(),
